@@ -18,9 +18,10 @@ PROTOCOL of the model `TM/Lock.lean`, for every interleaving:
    single-thread trace looks like: accesses / callbacks / unlocks happen with the lock held,
    `lock` / `blockRead` happen without it, every access or callback sits strictly between a
    `lock` and its matching `unlock`, and the trace ends unlocked.
-3. `Inv_init`, `Inv_step`, `Inv_runSched` and the consequences `callback_under_lock`,
-   `access_under_lock`, `mutual_exclusion`, `reader_isolated`, `no_blocking_read_under_lock`,
-   `deadlock_free`, `can_finish` — an inductive invariant of the concurrent system
+3. `Inv_init`, `Inv_step`, `Inv_runSched` (`Inv_reachable`, `reachable_iff_runSched`) and the
+   consequences `callback_under_lock`, `access_under_lock`, `mutual_exclusion`,
+   `reader_isolated`, `no_blocking_read_under_lock`, `no_reacquire`, `deadlock_free`,
+   `stuck_only_when_done`, `can_finish` — an inductive invariant of the concurrent system
    preserved by EVERY enabled step of EVERY thread (hence by every schedule).
 4. `repo_welllocked`, `lockedAccessor_ok`, `entry_points_safe` — the hand-written programs of
    the Go entry points pass the check, hence any number of goroutines running any finite
@@ -476,6 +477,49 @@ theorem Inv_runSched {s : Sys} (hI : Inv s) (sched : List Nat) : Inv (runSched s
     · next hen => exact ih (Inv_step hI hen)
     · exact ih hI
 
+/-- the states reachable from `s0` by sequences of enabled steps (the interleavings) -/
+inductive Reachable (s0 : Sys) : Sys → Prop
+  | init : Reachable s0 s0
+  | step {s : Sys} {i : Nat} : Reachable s0 s → enabled s i = true → Reachable s0 (stepSys s i)
+
+theorem runSched_append (s : Sys) (l1 l2 : List Nat) :
+    runSched s (l1 ++ l2) = runSched (runSched s l1) l2 := by
+  induction l1 generalizing s with
+  | nil => rfl
+  | cons i is ih => simp only [List.cons_append, runSched]; split <;> exact ih _
+
+theorem Reachable.trans {s0 s1 s2 : Sys} (h1 : Reachable s0 s1) (h2 : Reachable s1 s2) :
+    Reachable s0 s2 := by
+  induction h2 with
+  | init => exact h1
+  | step _ hen ih => exact .step ih hen
+
+/-- schedules enumerate exactly the reachable states, so "for every schedule" below means "at
+    every state reachable by any interleaving of enabled steps" -/
+theorem reachable_iff_runSched {s0 s : Sys} :
+    Reachable s0 s ↔ ∃ sched, s = runSched s0 sched := by
+  constructor
+  · intro h
+    induction h with
+    | init => exact ⟨[], rfl⟩
+    | @step s i _ hen ih =>
+      obtain ⟨sched, rfl⟩ := ih
+      exact ⟨sched ++ [i], by simp [runSched_append, runSched, hen]⟩
+  · rintro ⟨sched, rfl⟩
+    induction sched generalizing s0 with
+    | nil => exact .init
+    | cons i is ih =>
+      simp only [runSched]
+      split
+      · next hen => exact Reachable.trans (.step .init hen) ih
+      · exact ih
+
+/-- `Inv` holds at every reachable state -/
+theorem Inv_reachable {s0 s : Sys} (hI : Inv s0) (hr : Reachable s0 s) : Inv s := by
+  induction hr with
+  | init => exact hI
+  | step _ hen ih => exact Inv_step ih hen
+
 theorem nextAct_eq_some {s : Sys} {i : Nat} {a : Act} (h : nextAct s i = some a) :
     ∃ rest, s.threads[i]? = some ⟨a :: rest⟩ := by
   unfold nextAct at h
@@ -771,9 +815,9 @@ example : ∀ t ∈ demoSys.threads, ∃ p ∈ entryPoints, ∃ n, t.todo ∈ tr
   intro t ht
   simp only [demoSys, List.mem_cons, List.not_mem_nil, or_false] at ht
   rcases ht with rfl | rfl | rfl
-  · exact ⟨ptyReadLoop, by decide, 1, by decide⟩
-  · exact ⟨resize, by decide, 1, by decide⟩
-  · exact ⟨withLockReader, by decide, 1, by decide⟩
+  · exact ⟨ptyReadLoop, by simp [entryPoints], 1, by decide⟩
+  · exact ⟨resize, by simp [entryPoints], 1, by decide⟩
+  · exact ⟨withLockReader, by simp [entryPoints], 1, by decide⟩
 -- the hypotheses of the per-thread theorems are satisfiable on non-trivial traces
 example : ∀ t ∈ demoSys.threads, runTrace false t.todo = some false := by decide
 -- a schedule that interleaves the three threads; thread 2 is scheduled while blocked (stutter)
@@ -865,6 +909,8 @@ end TM.Lock
 #print axioms TM.Lock.Inv_init
 #print axioms TM.Lock.Inv_step
 #print axioms TM.Lock.Inv_runSched
+#print axioms TM.Lock.reachable_iff_runSched
+#print axioms TM.Lock.Inv_reachable
 #print axioms TM.Lock.callback_under_lock
 #print axioms TM.Lock.access_under_lock
 #print axioms TM.Lock.mutual_exclusion
